@@ -28,6 +28,39 @@ def search():
     finally:
         shutil.rmtree(d, ignore_errors=True)
 
+def shapes_stage(rep, tier, seed):
+    """rarely taken emitter paths outside the generator's core (pipe of a tuple into a local function, comprehension over
+    descending slices, closure reassignment, `!` around a self call in tail position ...): the expected text and result of
+    every program are computed by progs.py from the language rules, independently of the implementation"""
+    import re, progs, vm_corr
+    h = vm_corr.VmHarness()
+    st = dict(programs=0, agree=0, bad=0)
+    try:
+        rounds = 2 if tier == "quick" else 12
+        rng = Rng(seed * 7919 + 5)
+        for r in range(rounds):
+            for (name, src, meta) in progs.shapes_family(rng.fork()):
+                st["programs"] += 1
+                run = h.run(src=src, args=["3"], trace=False, timeout=60)
+                io = vm_corr.impl_outcome(run)
+                out = run["out"].decode("latin-1")
+                res = None
+                for l in io["execs"]:
+                    m = re.search(r"result=(\S+)", l)
+                    if m: res = m.group(1)
+                ok = io["kind"].startswith("return") and out == meta["expect_out"] and res == meta["expect_res"]
+                h.cleanup(run)
+                if ok:
+                    st["agree"] += 1
+                else:
+                    st["bad"] += 1
+                    if st["bad"] <= 3:
+                        rep.violation("shape_%s_r%d" % (name, r), "# the compiled program does not compute what the evaluation rules say\n# expected output %r result %s\n# observed %s output %r result %s\n# stderr: %s\n%s"
+                                      % (meta["expect_out"], meta["expect_res"], io["kind"], out, res, run["err"][-400:].replace("\n", "\n# "), src), True)
+    finally:
+        h.close()
+    return st
+
 def check(tier, seed):
     rep = Report("C02", tier, seed, "translation_validation")
     src_corr.clear_replays("C02")
@@ -44,6 +77,7 @@ def check(tier, seed):
         st = src_corr.stream(rep, exe, tier, seed, n, None, False, "g")
         n2 = 60 if tier == "quick" else 3000
         st2 = src_corr.stream(rep, exe, tier, seed + 1000003, n2, dict(faults=0.7, catches=0.9, prints=0.8), False, "f")
+        shapes = shapes_stage(rep, tier, seed)
     finally:
         shutil.rmtree(d, ignore_errors=True)
     rep.cov.update(
@@ -54,7 +88,7 @@ def check(tier, seed):
         evaluations=st["runs"] + st2["runs"] + corpus["in_core"],
         distinct_nontrivial=st["progs_with_output"] + st2["progs_with_output"] + corpus["with_output"],
         rule="type-directed seeded programs of the modelled core (a program is non-trivial when it prints); result value, printed bytes and unhandled-exception identity compared with eval; plus every sample program inside the core",
-        samples=st["samples"], stream=st, fault_stream=st2, corpus=corpus, known_defect_probes_hit=known, seed_corpus=seeds,
+        samples=st["samples"], shape_programs=shapes, stream=st, fault_stream=st2, corpus=corpus, known_defect_probes_hit=known, seed_corpus=seeds,
         share_programs_with_nonconstant_condition=round(st["progs_with_nonconst_cond"] / max(1, st["programs"]), 3),
         rejected_by_real_compiler=st["rejected"] + st2["rejected"])
     rep.assumptions = ["modelled core only (see DESIGN.add.md): no modules, ranges, slices, array arithmetic, FFI, pipe operator, math builtins other than sqrt",
